@@ -70,7 +70,7 @@ Proof. exact history_returns. Qed.
 (** the executable predicates the correspondence check evaluates on the implementation's answers
     hold of the model for every input *)
 Theorem C14_spec : forall names dflt base bsegs t a b inst old search hash,
-  valid names dflt t a b inst -> base_ok base bsegs -> old_ok_p dflt a old ->
+  valid names dflt t a b inst -> base_ok base bsegs -> old_ok_p dflt a old -> hash_decidable hash = true ->
   spec_C14 names dflt bsegs inst search hash b
     (get_new_path names dflt base (tabs_of (length names) t) (url_path names dflt bsegs a inst) search hash b old) = true.
 Proof. exact spec_C14_holds. Qed.
@@ -146,7 +146,7 @@ Proof. exact history_first_match. Qed.
 
 Theorem C14_first_match_spec : forall names dflt base bsegs t a b segs old path search hash,
   valid_url names dflt t a b segs -> base_ok base bsegs -> old_ok_p dflt a old ->
-  path_denotes names dflt bsegs a segs path ->
+  path_denotes names dflt bsegs a segs path -> hash_decidable hash = true ->
   spec_first_match names dflt bsegs t a b segs search hash
     (get_new_path names dflt base (tabs_of (length names) t) path search hash b old) = true.
 Proof. exact spec_first_match_holds. Qed.
@@ -190,6 +190,7 @@ Proof. exact history_explicit_start. Qed.
 
 Theorem C14_explicit_prefix_spec : forall names dflt base bsegs t a b segs path search hash,
   valid_url_explicit names t a b segs -> base_ok base bsegs -> path_denotes_explicit names bsegs a segs path ->
+  hash_decidable hash = true ->
   spec_first_match names dflt bsegs t a b segs search hash
     (get_new_path names dflt base (tabs_of (length names) t) path search hash b (Some a)) = true.
 Proof. exact spec_explicit_holds. Qed.
@@ -236,6 +237,47 @@ Theorem C14_swapped_refuted :
   /\ match_nested_model w_names (Some [102; 114]) [None; Some ([], []); None] (Some ([], [([115; 108; 117; 103], [102; 114])]))
      = Some (Some 1%nat, [47; 102; 114], ([], [])).
 Proof. split; vm_compute; reflexivity. Qed.
+
+(** * The fragment.
+    [Location.hash] is [window.location.hash] on the client (leptos_router 0.7.8 stores it unmodified,
+    "#top"), empty on the server, bare ("top") only with a test double.  [fragment_of] drops ONE leading
+    '#'; [spec_suffix] is what the property demands: the same query, and "#" ++ the same fragment when
+    it is non-empty.  All the frame theorems above are stated with [url_suffix] (what the code
+    appends); this theorem says it is the demanded suffix for both forms.  Excluded, because the
+    property cannot decide it: [hash = "#"] alone (never reported by a browser; the code emits "…#",
+    an explicit empty fragment). *)
+Theorem C14_fragment_preserved : forall search hash,
+  hash_decidable hash = true -> url_suffix search hash = spec_suffix search hash.
+Proof. exact suffix_preserved. Qed.
+
+(** no growth: on the client, after any number of switches (each followed by the browser reporting
+    the new URL's hash) the fragment is the one of the start URL *)
+Theorem C14_fragment_history : forall n h, fragment_of (hash_after hash_part true n h) = fragment_of h.
+Proof. exact fragment_no_growth. Qed.
+
+Theorem C14_fragment_history_bare : forall n h, starts_with_hash (fragment_of h) = false ->
+  fragment_of (hash_after hash_part false n h) = fragment_of h.
+Proof. exact fragment_no_growth_bare. Qed.
+
+Example C14_fragment_examples :
+  url_suffix [] [35; 116; 111; 112] = [35; 116; 111; 112] /\ url_suffix [] [116; 111; 112] = [35; 116; 111; 112] /\ url_suffix [] [35; 35; 120] = [35; 35; 120] /\ url_suffix [113] [] = [63; 113] /\
+  spec_suffix [] [35; 116; 111; 112] = [35; 116; 111; 112] /\ spec_suffix [] [116; 111; 112] = [35; 116; 111; 112] /\ spec_suffix [] [35; 35; 120] = [35; 35; 120] /\
+  url_suffix [] [hashc] = [hashc] /\ spec_suffix [] [hashc] = [] /\ hash_decidable [hashc] = false.
+Proof. repeat split; vm_compute; reflexivity. Qed.
+
+(** the unconditional push of '#' (before 2cc600f) doubles the '#' of a browser-form hash:
+    "/about" with hash "#top" switched en->fr gives "/fr/a-propos##top", and the fragment grows with
+    every further switch *)
+Theorem C14_double_hash_old_refuted :
+  valid_url w_names 0 w_overlap 0 1 [[97; 98; 111; 117; 116]] /\
+  spec_first_match w_names 0 [] w_overlap 0 1 [[97; 98; 111; 117; 116]] [] [35; 116; 111; 112]
+    (get_new_path_double_hash w_names 0 [slash] (tabs_of 3 w_overlap) [47; 97; 98; 111; 117; 116] [] [35; 116; 111; 112] 1 (Some 0%nat)) = false /\
+  get_new_path_double_hash w_names 0 [slash] (tabs_of 3 w_overlap) [47; 97; 98; 111; 117; 116] [] [35; 116; 111; 112] 1 (Some 0%nat) = Ok [47; 102; 114; 47; 97; 45; 112; 114; 111; 112; 111; 115; 35; 35; 116; 111; 112] /\
+  get_new_path w_names 0 [slash] (tabs_of 3 w_overlap) [47; 97; 98; 111; 117; 116] [] [35; 116; 111; 112] 1 (Some 0%nat) = Ok [47; 102; 114; 47; 97; 45; 112; 114; 111; 112; 111; 115; 35; 116; 111; 112] /\
+  hash_after hash_part_old true 2 [35; 116; 111; 112] = [35; 35; 35; 116; 111; 112].
+Proof.
+  split; [apply valid_url_b_sound; vm_compute; reflexivity|]. repeat split; vm_compute; reflexivity.
+Qed.
 
 (** the algorithms before the repairs (kept as [..._old]) violate the specification on valid inputs:
     "/french/x" read as fr; base path "/foo" not stripped ("/foo/fr/about" -> "/foo/de/fr/about");
